@@ -405,7 +405,7 @@ class AsgiValidator:
                 return
             self.state = "body"
             status = message.get("status")
-            if type(status) is not int:
+            if not isinstance(status, int) or isinstance(status, bool):  # an IntEnum member (HTTPStatus) is an integer
                 run.err("status-type", f"status {status!r} is {type(status).__name__}")
             elif not (100 <= status <= 999):
                 run.err("status-range", f"status {status}")
@@ -624,6 +624,10 @@ async def run_asgi(
 
 
 _LOOP: Optional[asyncio.AbstractEventLoop] = None
+# loops inherited from a parent process through fork are kept alive here: finalising one in the child would close it and
+# thereby remove the PARENT's wake-up pipe from the epoll object both processes share (the parent's next executor-backed
+# call then never wakes up and ends in "real-loop coroutine timed out")
+_INHERITED: list = []
 
 
 def loop() -> asyncio.AbstractEventLoop:
@@ -634,7 +638,7 @@ def loop() -> asyncio.AbstractEventLoop:
     return _LOOP
 
 
-def run_sync(coro: Any, timeout: float = 60.0) -> Any:
+def run_sync(coro: Any, timeout: float = 300.0) -> Any:
     """Run a coroutine on the process-wide real event loop (file I/O goes through its default
     executor).  A timeout here is a harness error, not a verdict."""
     from harness.core import HarnessError
